@@ -424,7 +424,9 @@ func (g *wGen) opNextWriter(wc *wConn, t int) {
 	_, prev := g.prevEnv(wc)
 	hadOpen := wc.cur != nil && !wc.cur.closed
 	wc.lastWrap = nil
+	fb := wc.t.faultFired
 	w, err := wc.c.NextWriter(t)
+	g.failStop(wc, fb, err, "NextWriter")
 	env := g.envPrev(wc, prev)
 	if hadOpen && wc.cur != nil {
 		// implicit close of the previous message: it counts as sent if nothing failed (checked by the oracle only in fault-free scenarios)
@@ -532,6 +534,12 @@ func (g *wGen) opReadFrom(wc *wConn, h int) {
 			wc.live = false
 		}
 	}
+	if err == nil && sr.term == nil && int(nn) != len(all) {
+		// io.ReaderFrom: reads until EOF; a source that ends cleanly has been consumed completely, so
+		// every byte it delivered (also those delivered together with io.EOF) is part of the message
+		g.sc.violate("%s: ReadFrom returned (%d, nil) from a source that delivered %d bytes and then io.EOF", wc.id, nn, len(all))
+		nn = int64(len(all))
+	}
 	wc.msgs[h].all = append(wc.msgs[h].all, all[:nn]...)
 	cs := strings.Join(parts, ",")
 	if cs == "" {
@@ -545,7 +553,9 @@ func (g *wGen) opClose(wc *wConn, h int) {
 	wc.t.wantDeadline(wc.wd)
 	w := wc.handles[h]
 	om := wc.msgs[h]
+	fb := wc.t.faultFired && om == wc.cur && !om.closed && wc.live
 	err := w.Close()
+	g.failStop(wc, fb, err, "Close of an open writer")
 	env := ""
 	if om.rec != nil && !om.closed {
 		if d := om.rec.take(); d != "" {
@@ -570,7 +580,9 @@ func (g *wGen) opWriteMessage(wc *wConn, t int, p []byte) {
 	_, prev := g.prevEnv(wc)
 	hadOpen := wc.cur != nil && !wc.cur.closed
 	wc.lastWrap = nil
+	fb := wc.t.faultFired
 	err := wc.c.WriteMessage(t, p)
+	g.failStop(wc, fb, err, "WriteMessage")
 	env := g.envPrev(wc, prev)
 	if hadOpen {
 		implicitSent(wc)
@@ -624,7 +636,9 @@ func (g *wGen) opWriteJSON(wc *wConn) {
 	_, prev := g.prevEnv(wc)
 	hadOpen := wc.cur != nil && !wc.cur.closed
 	wc.lastWrap = nil
+	fb := wc.t.faultFired
 	err := wc.c.WriteJSON(v)
+	g.failStop(wc, fb, err, "WriteJSON")
 	env := g.envPrev(wc, prev)
 	if hadOpen {
 		implicitSent(wc)
@@ -644,6 +658,28 @@ func (g *wGen) opWriteJSON(wc *wConn) {
 	g.markResult(wc, err)
 	g.sc.emit(fmt.Sprintf("wj %s %s%s", wc.id, hx(enc), env), g.line(resStr(err)))
 	g.sc.tag("op:wj")
+}
+
+// failStop (C10): once a transport write or deadline call has failed, every later message-level write
+// returns a non-nil error
+func (g *wGen) failStop(wc *wConn, faultBefore bool, err error, what string) {
+	if faultBefore && err == nil {
+		g.sc.violate("%s: %s returned nil although an earlier transport operation on this connection had failed", wc.id, what)
+	}
+}
+
+// safeStep runs one step; a panic inside the package ends the scenario and is reported (the write API
+// never panics on a sequential program, whatever failed before)
+func (g *wGen) safeStep() (panicked bool) {
+	defer func() {
+		if p := recover(); p != nil {
+			panicked = true
+			g.sc.emit("panic", "panic")
+			g.sc.violate("the write API panicked on a sequential program: %v", p)
+		}
+	}()
+	g.step()
+	return false
 }
 
 func isReaderErr(err error) bool { _, ok := err.(*rErr); return ok }
@@ -669,7 +705,9 @@ func (g *wGen) poolCheck() {
 
 func (g *wGen) opWriteControl(wc *wConn, t int, p []byte, d int) {
 	wc.t.wantDeadline(tokTime(d))
+	fb := wc.t.faultFired
 	err := wc.c.WriteControl(t, p, tokTime(d))
+	g.failStop(wc, fb, err, "WriteControl")
 	if err == nil {
 		wc.sent = append(wc.sent, apiMsg{t, p})
 		if t == 8 {
@@ -736,7 +774,9 @@ func (g *wGen) opWritePrepared(wc *wConn, pm *wPM) {
 		}
 		wc.f8 = true
 	}
+	fb := wc.t.faultFired
 	err := wc.c.WritePreparedMessage(pm.pm)
+	g.failStop(wc, fb, err, "WritePreparedMessage")
 	evs := g.log.take()
 	env := ""
 	if compress && !pm.cached[key] {
@@ -962,7 +1002,9 @@ func runWriterScenario(seed int64, opt wOpts, faultAt int, faultKind string) *sc
 	}
 	nops := 2 + r.Intn(14)
 	for i := 0; i < nops; i++ {
-		g.step()
+		if g.safeStep() {
+			break
+		}
 	}
 	// final: ask both sides for the wire image of every connection
 	for _, wc := range g.conns {
@@ -993,6 +1035,10 @@ func writerOracle(sc *scenario, wc *wConn) {
 			continue
 		}
 		sc.violate("%s: wire violates RFC 6455: %s", wc.id, p)
+	}
+	// C10: nothing more is ever written after a transport write or deadline call has failed
+	if wc.t.writesAfterFault > 0 {
+		sc.violate("%s: %d transport writes after a transport operation had failed (fail-stop)", wc.id, wc.t.writesAfterFault)
 	}
 	// every transport write happens under the deadline the caller asked for (C10 deadline_applied)
 	if wc.t.wdBad != "" {
